@@ -33,6 +33,10 @@
 #include <string.h>
 
 const char *__asan_default_options(void) { return "detect_leaks=0"; }
+/* ASan's allocator statistics: pages come straight from the OS allocator (posix_memalign), not from the parent, so "every
+ * page goes back" is checked by comparing the heap before new and after destroy */
+size_t __sanitizer_get_current_allocated_bytes(void);
+static size_t s_heap0;
 
 #define BIG_MAX ((size_t)1 << 26) /* largest block that is really allocated */
 static int s_argc;
@@ -62,19 +66,22 @@ static uint64_t get3(const char *k1, const char *k2, const char *k3, uint64_t df
 static size_t p_acquires, p_releases, p_reallocs, p_callocs, p_last_size, p_live;
 static void *p_last_released;
 static int p_moves;
-static void *p_acquire(struct aws_allocator *a, size_t n) { (void)a; p_acquires++; p_last_size = n; p_live++; void *p = malloc(n); memset(p, 0xEE, n); return p; }
+/* blocks above 512 bytes are page aligned, so that what s_sba_free inspects at "the page base of the block" is the block's
+ * own first bytes (as in the unit's model, where a block of the parent is an object of its own) */
+static void *p_malloc(size_t n) { void *p = NULL; if (n > 512) { if (posix_memalign(&p, 4096, n)) p = NULL; } else p = malloc(n); return p; }
+static void *p_acquire(struct aws_allocator *a, size_t n) { (void)a; p_acquires++; p_last_size = n; p_live++; void *p = p_malloc(n); memset(p, 0xEE, n); return p; }
 static void p_release(struct aws_allocator *a, void *p) { (void)a; p_releases++; p_last_released = p; p_live--; free(p); }
 static void *p_realloc(struct aws_allocator *a, void *p, size_t o, size_t n) {
     (void)a;
     p_reallocs++;
     p_last_size = n;
     if (n <= o && !p_moves) return p;
-    uint8_t *q = malloc(n);
+    uint8_t *q = p_malloc(n);
     memset(q, 0xEE, n);
     if (p) { memcpy(q, p, o < n ? o : n); free(p); } else p_live++;
     return q;
 }
-static void *p_calloc(struct aws_allocator *a, size_t num, size_t size) { (void)a; p_callocs++; p_last_size = num * size; p_live++; return calloc(num, size); }
+static void *p_calloc(struct aws_allocator *a, size_t num, size_t size) { (void)a; p_callocs++; p_last_size = num * size; p_live++; void *p = p_malloc(num * size); memset(p, 0, num * size); return p; }
 static struct aws_allocator s_parent = {.mem_acquire = p_acquire, .mem_release = p_release, .mem_realloc = p_realloc, .mem_calloc = p_calloc};
 
 static struct aws_allocator *SBA;
@@ -106,7 +113,7 @@ static void neighbours_drop(struct neigh *nb) { for (unsigned i = 0; i < NNEIGH;
 
 static void op_alloc(size_t n, const char *what) {
     if (n == 0) { printf("size 0 is outside the precondition\n"); exit(3); }
-    if (n > BIG_MAX) { printf("input not constructible natively (block of %zu bytes)\n", n); exit(3); }
+    if (n > BIG_MAX) { printf("a process cannot back %zu bytes: size reduced to %zu (still served by the parent)\n", n, (size_t)BIG_MAX); n = BIG_MAX; }
     struct neigh nb[NNEIGH];
     neighbours_make(nb, n <= 512 ? class_of(n) : 600);
     void *mid = aws_mem_acquire(SBA, n <= 512 ? class_of(n) : 600); /* a hole between live neighbours to be reused */
@@ -154,18 +161,28 @@ static void op_free(int kase, size_t bi, size_t lsz) {
         neighbours_drop(nb);
     } else {
         if (lsz <= 512) lsz = 513;
-        if (lsz > BIG_MAX) { printf("input not constructible natively (block of %zu bytes)\n", lsz); exit(3); }
-        void *p = aws_mem_acquire(SBA, lsz);
-        memset(p, 0x11, lsz); /* no tag pair at the start of the block */
-        pr0 = p_releases;
-        SBA->mem_release(SBA, p);
-        printf("release of a large block of %zu bytes\n", lsz);
-        if (p_releases != pr0 + 1 || p_last_released != p) FAIL("a block of the parent allocator was not handed back to it exactly once");
-        if (aws_small_block_allocator_bytes_active(SBA) != a0) FAIL("releasing a large block changes bytes_active");
+        if (lsz > BIG_MAX) { printf("block of %zu bytes reduced to %zu\n", lsz, (size_t)BIG_MAX); lsz = BIG_MAX; }
+        /* no tag pair at the start of the block: neither tag, only the first, only the second */
+        for (int v = 0; v < 3; ++v) {
+            uint8_t *p = aws_mem_acquire(SBA, lsz);
+            memset(p, 0x11, lsz);
+            const uint64_t tag = 0x736f6d6570736575ULL;
+            if (v == 1) memcpy(p, &tag, 8);
+            if (v == 2) memcpy(p + 24, &tag, 8);
+            pr0 = p_releases;
+            SBA->mem_release(SBA, p);
+            printf("release of a large block of %zu bytes (%s)\n", lsz, v == 0 ? "no tag value in its first bytes" : v == 1 ? "first tag value only" : "second tag value only");
+            if (p_releases != pr0 + 1 || p_last_released != p) FAIL("a block of the parent allocator was not handed back to it exactly once");
+            if (aws_small_block_allocator_bytes_active(SBA) != a0) FAIL("releasing a large block changes bytes_active");
+        }
     }
 }
 static void op_realloc(size_t o, size_t n, int moves) {
-    if (o > BIG_MAX || n > BIG_MAX) { printf("input not constructible natively (blocks of %zu / %zu bytes)\n", o, n); exit(3); }
+    if (o > BIG_MAX || n > BIG_MAX) { /* keep small / large and the order of the two sizes */
+        size_t o2 = o > BIG_MAX ? BIG_MAX - (n > o ? 1 : 0) : o, n2 = n > BIG_MAX ? BIG_MAX - (o > n ? 1 : 0) : n;
+        printf("a process cannot back %zu / %zu bytes: sizes reduced to %zu / %zu\n", o, n, o2, n2);
+        o = o2; n = n2;
+    }
     p_moves = moves;
     struct neigh nb[NNEIGH];
     neighbours_make(nb, n && n <= 512 ? class_of(n) : o && o <= 512 ? class_of(o) : 64);
@@ -263,25 +280,37 @@ static void check_metrics(const char *when, size_t pages) {
     if (a != live_count() * s_cls) FAIL("%s: bytes_active reports %zu, there are %zu live chunk(s) of %zu bytes (%zu)", when, a, live_count(), s_cls, live_count() * s_cls);
     if (r != pages * PAGE) FAIL("%s: bytes_reserved reports %zu, the bin must hold %zu page(s) of %zu bytes", when, r, pages, PAGE);
 }
+/* state used when the trace gave no values */
+static size_t s_dflt_na = 1, s_dflt_nf = 0;
+static uint64_t s_dflt_fp = 0, s_dflt_fs = 0;
 static void build_state(void) {
     size_t bin = get("r_bin", 4);
     s_cls = (size_t)32 << (bin < 5 ? bin : 4);
     s_nch = (PAGE - 32) / s_cls;
     s_np = get("r_np", 3);
-    s_na = get("r_na", 1);
+    s_na = get("r_na", s_dflt_na);
     s_work = get("r_work", 2);
-    s_nf = get("r_nf", 0);
+    s_nf = get("r_nf", s_dflt_nf);
     if (get("r_page", PAGE) != PAGE) { printf("the unit's page size %" PRIu64 " is not the page size of this build (%zu)\n", get("r_page", 0), PAGE); exit(3); }
     if (s_np < 1 || s_np > MAXPG || s_na >= s_np || s_nch > MAXCH || s_nf > 8) { printf("input not constructible: state outside the model\n"); exit(3); }
     if (s_work != SIZE_MAX && s_work >= s_nch) { printf("input not constructible: cursor slot %zu\n", s_work); exit(3); }
-    if (s_work == 0) { printf("bin state not reachable through the api: a working page from which nothing has been carved\n"); exit(3); }
+    int approx = 0;
+    if (s_work == 0) {
+        /* a working page from which nothing has been carved satisfies the invariant but cannot be reached through the api (a
+         * page is requested by the allocation that carves its first chunk).  Nearest reachable state: the first chunk carved
+         * and given back, i.e. cursor on slot 1 and that chunk at the front of the free list (reused last) */
+        printf("working page with nothing carved is not reachable through the api: replaced by 'first chunk carved and released'\n");
+        approx = 1;
+        s_work = 1;
+    }
     /* carve: exhausted pages first (model pages 0..na-1), then the working page (model page np-1) */
     for (size_t p = 0; p < s_na; ++p)
         for (size_t s = 0; s < s_nch; ++s) { s_chunk[p][s] = aws_mem_acquire(SBA, s_cls); s_livef[p][s] = 1; fill(s_chunk[p][s], s_cls, chunk_id(p, s)); }
     if (s_work != SIZE_MAX)
         for (size_t s = 0; s < s_work; ++s) { s_chunk[s_np - 1][s] = aws_mem_acquire(SBA, s_cls); s_livef[s_np - 1][s] = 1; fill(s_chunk[s_np - 1][s], s_cls, chunk_id(s_np - 1, s)); }
+    if (approx) { aws_mem_release(SBA, s_chunk[s_np - 1][0]); s_livef[s_np - 1][0] = 0; }
     /* the free list, in list order */
-    uint64_t fp = get("r_fp", 0), fs = get("r_fs", 0);
+    uint64_t fp = get("r_fp", s_dflt_fp), fs = get("r_fs", s_dflt_fs);
     for (size_t i = 0; i < s_nf; ++i) {
         size_t p = (fp >> (4 * i)) & 15, s = (fs >> (8 * i)) & 255;
         if (p >= MAXPG || s >= MAXCH || !s_livef[p][s]) { printf("input not constructible: free-list entry %zu (page %zu slot %zu) is not a carved chunk\n", i, p, s); exit(3); }
@@ -289,12 +318,36 @@ static void build_state(void) {
         aws_mem_release(SBA, s_chunk[p][s]);
         s_livef[p][s] = 0;
     }
+    if (approx) s_nf++;
     s_pages = s_na + (s_work != SIZE_MAX);
     printf("class %zu (%zu chunks per %zu-byte page): %zu exhausted page(s), ", s_cls, s_nch, PAGE, s_na);
     if (s_work != SIZE_MAX) printf("working page carved up to slot %zu, ", s_work); else printf("no working page, ");
     printf("%zu free chunk(s), %zu live\n", s_nf, live_count());
     for (size_t p = 0; p < MAXPG; ++p) for (size_t s = 1; s < MAXCH; ++s)
         if (s_chunk[p][s] && page_of(s_chunk[p][s]) != page_of(s_chunk[p][0])) { FAIL("setting up: chunks %zu and 0 of page %zu do not share a page", s, p); return; }
+}
+static void check_all_returned(void) {
+    if (p_live != 0) FAIL("destroy: %zu block(s) of the parent allocator were not given back", p_live);
+    size_t h = __sanitizer_get_current_allocated_bytes();
+    if (h > s_heap0) FAIL("destroy: %zu bytes that the allocator took from the OS (pages of %zu bytes) were not given back", h - s_heap0, PAGE);
+}
+/* the allocator still works: enough further blocks to use up the free list and carve / open a page; each is none of the live
+ * blocks (nor of the other new ones), lies inside a page and is writable (a chunk left on the free list, a chunk of a page
+ * that went back to the OS, or a cursor that was not advanced by a whole chunk shows here) */
+static void follow_up(const char *what) {
+    uint8_t *q[12];
+    size_t n = s_nf + 3 <= 12 ? s_nf + 3 : 12;
+    for (size_t i = 0; i < n; ++i) {
+        q[i] = aws_mem_acquire(SBA, s_cls);
+        check_small_block(q[i], s_cls, what);
+        for (size_t p = 0; p < MAXPG; ++p) for (size_t s = 0; s < MAXCH; ++s)
+            if (s_livef[p][s] && q[i] < s_chunk[p][s] + s_cls && s_chunk[p][s] < q[i] + s_cls) { FAIL("%s: the block overlaps a live block (page %zu slot %zu)", what, p, s); p = MAXPG; break; }
+        for (size_t j = 0; j < i; ++j) if (q[i] < q[j] + s_cls && q[j] < q[i] + s_cls) FAIL("%s: two live blocks overlap", what);
+        memset(q[i], 0xC3, s_cls);
+    }
+    check_live_intact(what);
+    for (size_t i = 0; i < n; ++i) aws_mem_release(SBA, q[i]);
+    check_live_intact(what);
 }
 static void release_all_and_destroy(void) {
     for (size_t p = 0; p < MAXPG; ++p) for (size_t s = 0; s < MAXCH; ++s)
@@ -304,7 +357,7 @@ static void release_all_and_destroy(void) {
     if (r > PAGE) FAIL("after releasing every block the bin still reserves %zu bytes: with nothing live it may keep at most its working page", r);
     aws_small_block_allocator_destroy(SBA);
     SBA = NULL;
-    if (p_live != 0) FAIL("destroy: %zu block(s) of the parent allocator were not given back", p_live);
+    check_all_returned();
 }
 
 int main(int argc, char **argv) {
@@ -312,6 +365,9 @@ int main(int argc, char **argv) {
     s_argv = argv;
     if (argc < 2) return 2;
     const char *op = argv[1];
+    printf("replay of %s\n", op);
+    fflush(stdout);
+    s_heap0 = __sanitizer_get_current_allocated_bytes();
     SBA = aws_small_block_allocator_new(&s_parent, false);
     if (!SBA) { printf("VIOLATED: aws_small_block_allocator_new failed\n"); return 1; }
     PAGE = aws_small_block_allocator_page_size(SBA);
@@ -319,8 +375,8 @@ int main(int argc, char **argv) {
     if (!strcmp(op, "alloc")) {
         if (has("arg.size") || has("arg.size_wrapper") || has("r_size")) op_alloc(get3("arg.size", "arg.size_wrapper", "r_size", 0), "acquire");
         else { static const size_t sizes[] = {1, 32, 33, 64, 65, 128, 129, 256, 257, 512, 513, 5000}; for (unsigned i = 0; i < 12; ++i) op_alloc(sizes[i], "acquire"); }
-    } else if (!strcmp(op, "free")) {
-        if (has("g_case")) op_free((int)get("g_case", 1), get("g_bi", 0), get("g_lsz", 600));
+    } else if (!strcmp(op, "free") || !strcmp(op, "release")) {
+        if (!strcmp(op, "free") && has("g_case")) op_free((int)get("g_case", 1), get("g_bi", 0), get("g_lsz", 600));
         else { op_free(0, 0, 0); for (size_t b = 0; b < 5; ++b) op_free(1, b, 0); op_free(2, 0, 600); op_free(2, 0, 70000); }
     } else if (!strcmp(op, "realloc")) {
         if (has("arg.old_size") || has("arg.new_size") || has("arg.old_size_wrapper")) op_realloc(get3("arg.old_size", "arg.old_size_wrapper", "r_old", 0), get3("arg.new_size", "arg.new_size_wrapper", "r_new", 1), (int)get("g_vt_moves", 0));
@@ -346,6 +402,9 @@ int main(int argc, char **argv) {
         aws_small_block_allocator_destroy(NULL);
         printf("new / destroy checked\n");
     } else if (!strcmp(op, "alloc_step") || !strcmp(op, "free_step") || !strcmp(op, "metrics") || !strcmp(op, "destroy_step")) {
+        if (!strcmp(op, "free_step") && !has("r_na")) { /* no witness: the release that empties an exhausted page (page 1 of 2) */
+            s_dflt_na = 2; s_dflt_nf = 6; s_dflt_fp = 0x111111; s_dflt_fs = 0x050403020100ULL;
+        }
         build_state();
         if (s_fail) return 1;
         check_live_intact("pre-state");
@@ -378,8 +437,11 @@ int main(int argc, char **argv) {
             check_live_intact("alloc");
             if (live_count() != live0 + 1) FAIL("alloc: bookkeeping of the replay lost a block");
             check_metrics("after alloc", pages1);
+            /* the allocator still works: the next block is none of the live ones either (a chunk left on the free list or a
+             * cursor that was not advanced by a whole chunk shows here) */
+            follow_up("further alloc");
         } else if (!strcmp(op, "free_step")) {
-            size_t ap = get("r_ap", 0), as = get("r_as", 0);
+            size_t ap = get("r_ap", has("r_na") ? 0 : 1), as = get("r_as", has("r_na") ? 0 : 6);
             if (ap >= MAXPG || as >= MAXCH || !s_livef[ap][as]) { printf("input not constructible: the block to release (page %zu slot %zu) is not live\n", ap, as); return 3; }
             int retire = ap < s_na && live_in_page(ap) == 1;
             aws_mem_release(SBA, s_chunk[ap][as]);
@@ -389,16 +451,11 @@ int main(int argc, char **argv) {
             check_live_intact("free");
             check_metrics("after free", s_pages - (retire ? 1 : 0));
             /* the allocator still works: a new block is none of the live ones */
-            uint8_t *r = aws_mem_acquire(SBA, s_cls);
-            for (size_t p = 0; p < MAXPG; ++p) for (size_t s = 0; s < MAXCH; ++s)
-                if (s_livef[p][s] && r < s_chunk[p][s] + s_cls && s_chunk[p][s] < r + s_cls) { FAIL("acquire after the release: the block overlaps a live block (page %zu slot %zu)", p, s); p = MAXPG; break; }
-            memset(r, 0xC3, s_cls);
-            check_live_intact("acquire after the release");
-            aws_mem_release(SBA, r);
+            follow_up("acquire after the release");
         } else {
             printf("step: destroy with %zu live chunk(s)\n", live_count());
             aws_small_block_allocator_destroy(SBA);
-            if (p_live != 0) FAIL("destroy: %zu block(s) of the parent allocator were not given back", p_live);
+            check_all_returned();
             goto done;
         }
         release_all_and_destroy();
